@@ -22,12 +22,12 @@ def generate(tier, seed):
     reqs = []
     for n in range(0, 4):
         combos = list(itertools.product(STRS, repeat=n))
-        lim = 400 if tier == "quick" else 6000
+        lim = 1500 if tier == "quick" else 20000
         if len(combos) > lim: combos = rng.sample(combos, lim)
         for t in combos: reqs.append("(concat %s)" % " ".join(t))
-    for _ in range(100 if tier == "quick" else 2000):
+    for _ in range(400 if tier == "quick" else 8000):
         reqs.append("(concat %s)" % " ".join(rng.choice(STRS + ["1", "'a", "nil"]) for _ in range(rng.randint(1, 5))))
-    trip = rng.sample(list(itertools.product(STRS, repeat=3)), 150 if tier == "quick" else 3000)
+    trip = rng.sample(list(itertools.product(STRS, repeat=3)), 500 if tier == "quick" else 10000)
     for a, b, c in trip:
         reqs.append("(list (concat (concat %s %s) %s) (concat %s (concat %s %s)) (concat %s \"\") (concat \"\" %s))" % (a, b, c, a, b, c, a, a))
     for a, b in itertools.product(STRS, repeat=2):
@@ -40,7 +40,7 @@ def generate(tier, seed):
             reqs += ["(%s %s \"a\")" % (f, bad), "(%s \"a\" %s)" % (f, bad), "(%s \"a\")" % f, "(%s)" % f, "(%s \"a\" \"b\" \"c\")" % f]
     dirs = ["%s", "%S", "%d", "%f", "%%", "%x", "%", "a", " ", "é", "\\n", "%5d", "\\\""]
     args = ["1", "-7", "2.5", "100.25", '"str"', '"q\\"t"', r'"a\\b"', r'"x\\"', r"""'("a\\b" "c")""", r"""'("q\"" . "\\")""", "'sym", "'(1 \"x\" b)", "nil", "t", ":k", "1.0", "3.75", "'(a . b)", "0.1"]
-    for _ in range(2500 if tier == "quick" else 60000):
+    for _ in range(8000 if tier == "quick" else 200000):
         fs = "".join(rng.choice(dirs) for _ in range(rng.randint(0, 5)))
         nd = sum(1 for d in ["%s", "%S", "%d", "%f"] for _ in range(fs.count(d)))
         n = max(0, nd + rng.choice([-1, 0, 0, 0, 1, 2]))
